@@ -590,6 +590,26 @@ def memo_rule(ctx: Ctx, rule):
                 res.fail(rule.id, "value-keyed-memo::%s::%s" % (q, callee), ctx.loc(q, n),
                          "%s stores %s(%s) in a dict keyed by the value: values that compare equal but differ in kind (1, 1.0, True) share the entry" % (fi.name, callee, norm(key)),
                          "a document holding ex:count=1 and ex:ratio=1.0: the float is written with the int's datatype")
+    # the memo inside the dispatcher itself: D[value] = <what was computed for it>, D handed in or held on the object
+    for q in sorted(kd):
+        fi = ctx.fn(q)
+        p = kd[q]
+        if all_assignments(fi.node, p):
+            continue
+        for n in walk_function(fi.node):
+            key = None
+            if isinstance(n, ast.Assign):
+                for t in n.targets:
+                    if isinstance(t, ast.Subscript) and isinstance(t.slice, ast.Name) and t.slice.id == p:
+                        key = t
+            elif isinstance(n, ast.Call) and call_name(n) == "setdefault" and n.args and isinstance(n.args[0], ast.Name) and n.args[0].id == p:
+                key = n
+            if key is None:
+                continue
+            res.ob("%s keeps what it computed under the value itself: %s" % (short(q) if q.count(".") > 2 else q, norm(n)[:60]))
+            res.fail(rule.id, "value-keyed-memo::%s::self" % q, ctx.loc(q, n),
+                     "%s chooses its output by the kind of `%s` and stores it in a dict keyed by `%s`: values that compare equal but differ in kind (1, 1.0, True; two datetimes of one instant) share the entry" % (fi.name, p, p),
+                     "a container holding ex:count=7 in one record and ex:ratio=7.0 in another: the float is written as the int")
     return res
 
 
@@ -729,7 +749,22 @@ def c15_r11(ctx: Ctx, rule):
                     root = root.value
                 if isinstance(root, ast.Name):
                     templates.append((q, n, tmpl, root.id))
-    if len(templates) < 3 and not in_class:
+    # ids drawn from itertools.count (possibly wrapped: map("n%d".__mod__, count(1))): the iterator is the counter
+    iter_sources = []
+    for q, fi in ctx.p.functions.items():
+        if not (q == top or q.startswith(top + ".<locals>.")):
+            continue
+        for c in calls_in(fi.node):
+            r = ctx.p.resolve_dotted(fi.module, c.func) if dotted(c.func) else None
+            if r and r[0] == "ext" and r[1] == "itertools.count":
+                iter_sources.append((q, c))
+    for q, c in iter_sources:
+        ok = q == top
+        res.ob("%s: an id sequence is drawn from %s, created in %s: once per prov_to_dot call: %s" % (q.rsplit(".", 1)[1], norm(c), q.rsplit(".", 1)[1], ok))
+        if not ok:
+            res.fail(rule.id, "id-counter-restarts::%s" % norm(c), ctx.loc(q, c), "the id sequence %s is created in %s, which runs once per bundle: ids restart in every cluster" % (norm(c), q.rsplit(".", 1)[1]),
+                     "a document with top-level elements and a bundle: the top-level n1 and the bundle's n1 are one node for Graphviz; edges attach to the wrong elements")
+    if len(templates) + len(iter_sources) < 3 and not in_class:
         raise AnalysisError("fewer than 3 numbered id templates found in prov_to_dot")
     for q, n, tmpl, root in templates:
         # where is the counter initialised?  the innermost enclosing function (up to prov_to_dot) that binds the name by plain assignment
